@@ -15,6 +15,23 @@ the inputs (defects class{Universal,Context,Application,Private}: a required mem
 the element ignored, at top level nothing is consumed).  ReadClass / WriteClass are upstream's tables (re-confirmed against
 encoding/asn1 on every run); where they differ (ClassQuirk) the round trip is not asserted, MarshalAgrees is.
 
+Strings of each tag (clause StringTable of the specification): which restricted character string type is on the wire
+(UTF8String, NumericString, PrintableString, T61String, IA5String, GeneralString, BMPString - behind an IMPLICIT tag the
+declared one) and what its content octets are is a dimension of the inputs: 84 string forms [string type, octets] at the
+boundaries of every type's repertoire (surrogate pairs / lone / reversed surrogates / U+FFFF / odd length / terminator for
+BMPString; overlong, surrogate, > U+10FFFF, truncated and 4-octet sequences for UTF8String; every character next to the
+PrintableString set, the Latin-1 and T.61 ranges of lax mode; 00 / 7F / 80 for IA5String; '/' ':' for NumericString; 8-bit
+T61String / GeneralString).  The specification COMPUTES verdict and value (UTF-8 and UTF-16 decoders and the repertoires are
+TLA+ operators; the Go string is exported as code points or bytes), placed at every way a string reaches the decoder (top
+level, struct members of every declared type, SEQUENCE OF elements, interface{}, inside EXPLICIT, behind IMPLICIT tags).
+
+EXPLICIT x target type (clause ExplicitTargets): RawValue / Flag / []byte / struct / bool / int behind an EXPLICIT tag
+(context / application / private, required / OPTIONAL, followed by a required member, by an OPTIONAL one, last; top level with
+and without remainder) crossed with the wrapper forms: with contents, of length 0 (explicitEmpty), of length 0 and primitive
+(explicitEmptyPrimitive), with contents and primitive (explicitPrimitive).  ExplicitOpaque (a RawValue is the wrapper itself and
+round-trips), ExplicitPresence (an empty wrapper sets a Flag, is rejected for other types), ExplicitNoChild (a header that ends
+its buffer is rejected before its tag is compared - also a zero-length element offered to an absent OPTIONAL EXPLICIT member).
+
 spec/codec/Asn1LaxHist.tla is the history layer: Unmarshal / Marshal are functions of their arguments.  TLC
 draws histories of calls on one target type (random walks over the cases with repetition, fresh / re-used
 destination variable and input buffer), checks the laws of the destination model (slots; AbsentOptionalKeeps,
@@ -33,7 +50,7 @@ ASSUME = [
     "(base-128 groups with a leading 0x80 accepted in OID arcs and high tag numbers; GeneralizedTime fractions "
     "rejected; SET OF not sorted by Marshal) is pinned to that toolchain",
     "'all byte strings and all target types' is decided on the structured family of Asn1Lax.tla (the type catalogue x container "
-    "stacks of depth <= 2 over 5 container kinds x 4 value variants x 36 defects x paths x modes; top-level parameter strings for the "
+    "stacks of depth <= 2 over 5 container kinds x 4 value variants x 39 defects + 84 string forms x paths x modes; top-level parameter strings for the "
     "shapes whose root carries field parameters) plus seeded byte-level mutations of those inputs",
     "tag classes: which class Unmarshal expects and Marshal writes for explicit / implicit x application / private is upstream's "
     "table (ExplicitIgnoresPrivate, ImplicitPrivateWins, MarshalApplicationWins, ClassImpliesTag0); a member for which the two differ "
@@ -45,6 +62,18 @@ ASSUME = [
     "decoded values marshal to equal bytes in both packages, SET OF excepted (MarshalAgrees); an absent OPTIONAL member "
     "without DEFAULT keeps what the re-used destination held (AbsentOptionalKeeps); nothing is asserted about the "
     "destination of a rejected call",
+    "strings: the verdict and the Go string of a string form follow from the rules of clause StringTable (X.680 41 repertoires, RFC 3629, "
+    "UTF-16), each confirmed against encoding/asn1 on every run; named clauses where the property is silent and both packages have a "
+    "definite behaviour: a BMPString is read as UTF-16 - a surrogate pair is one character, an unpaired surrogate U+FFFD (BMPAsUTF16) - "
+    "and loses one trailing 0000 (BMPTerminator); '*' and '&' are accepted in a PrintableString (PrintableAsteriskAmpersand); T61String / "
+    "GeneralString octets are handed over unchanged (T61IsOpaque); in lax mode 'really ISO 8859-1 text' means every octet in 20..7E / "
+    "A0..FF, 'really T.61 text' no NUL and no octet of the fork's documented list of unassigned T.61 positions (T61Unassigned); RoundTrip "
+    "is not asserted of a string form (Marshal never writes T61 / General / BMP), MarshalAgrees is",
+    "EXPLICIT x target type: upstream's table - a RawValue is the wrapper itself (ExplicitOpaque), a wrapper of length 0 sets a Flag and is "
+    "rejected for every other type (ExplicitPresence), a wrapper or zero-length element whose header ends its buffer is rejected by the "
+    "EXPLICIT member it is offered to before tags are compared (ExplicitNoChild: also lax-mode empty OIDs behind an absent OPTIONAL "
+    "EXPLICIT member, as every other zero-length element there in both packages); EXPLICIT interface{} targets and primitive wrappers "
+    "of OPTIONAL members are not generated",
     "'for every sequence of calls' is decided on random walks drawn by TLC (one target type per history, depth 10-14), not "
     "on all sequences",
 ]
